@@ -52,3 +52,11 @@ item("seipdSaltLen", "src/packet/sym_encrypted_protected_data.rs", r"let salt = 
 item("opsFpLen", "src/packet/one_pass_signature.rs", r"let fingerprint = i\.read_arr::<(\d+)>\(\)\?;", "OPS v6 fingerprint size")
 item("opsOverhead", "src/packet/one_pass_signature.rs", r"const WRITE_LEN_OVERHEAD: usize = (\d+);", "OPS WRITE_LEN_OVERHEAD")
 item("wireSkesk6FieldsMax", "src/packet/sym_key_encrypted_session_key.rs", r"3 \+ s2k\.write_len\(\) \+ iv\.len\(\) <= (\d+)", "SKESK v6 parser: largest admitted count of parameter octets")
+
+# ---- v6 key packets: the octet count of the public key material is exact in both parsers (D15d) ----
+flag("fixD15dV6PubLenExactBothParsers", "src/packet/public_key_parser.rs",
+     r"let mut public = i\.read_take\(pub_len\);\s*let params = PublicParams::try_from_reader\(alg, Some\(pub_len\), &mut public\)\?;\s*ensure!\(\s*public\.limit\(\) == 0,",
+     "D15d repaired (public parser): the public parameters of a v6 key packet must fill exactly the announced octet count")
+flag("fixD15dV6PubLenExactSecretParser", "src/packet/secret_key_parser.rs",
+     r"ensure!\(\s*public\.limit\(\) == 0,.*?let pub_len = i\.read_be_u32\(\)\?;\s*ensure!\(pub_len > 0, \"key length must not be 0\"\);",
+     "D15d repaired (secret parser): a zero count is refused and the window must be used up, as in the public parser")
